@@ -103,6 +103,10 @@ def correspondence(ck, rng, tier):
     for start, t, k in [(0, 1, 5), (17, 4, 50), (1000, 16, 60), (99999, 8, 100), (4294967290, 4, 3), (4294967000, 16, 40)] + \
             [(rng.below(10 ** 6), rng.range(1, 16), rng.range(1, 60)) for _ in range(6 if tier == 'quick' else 60)]:
         jobs.append({'kind': 'names', 'start': start, 'threads': t, 'per_thread': k})
+    # freshness of the heap's next temporary after optimize_sources (what sync_temp_counter is for; model: C12_sync_covers)
+    for i in range(30 if tier == 'quick' else 300):
+        p = gen_program(rng.fork(), {'nfun': 6, 'depth': 3, 'loop_focus': i % 2 == 0})
+        jobs.append({'kind': 'opt-fresh', 'sources': p['sources']})
     rc, out = vh(['c12-run'], input='\n'.join(json.dumps(j) for j in jobs) + '\n', timeout=900)
     res = [json.loads(l) for l in out.splitlines() if l.startswith('{')]
     if len(res) != len(jobs):
@@ -113,6 +117,18 @@ def correspondence(ck, rng, tier):
         if 'panic' in r:
             ck.property_failure('panic in %s primitives: %s' % (j['kind'], r['panic']), j)
             terms.append('true')
+            continue
+        if j['kind'] == 'opt-fresh':
+            terms.append('true')
+            if r.get('rejected'):
+                continue
+            ck.case(('opt-fresh', json.dumps(j['sources'], sort_keys=True)), nontrivial=r['max_temp_in_program'] >= 0)
+            ck.count('opt-fresh')
+            if int(r['next_heap_temp'][2:]) <= r['max_temp_in_program']:
+                ck.property_failure('after optimize_sources the next temporary name of the heap (%s) is not fresh: the optimized program '
+                                    'already uses _t%d (names handed out by the parallel passes were not reserved; a later stage '
+                                    'can hand the same name out again, depending on scheduling)' % (r['next_heap_temp'], r['max_temp_in_program']),
+                                    {'sources': j['sources'], 'entry': 'Main'}, expected='next id > %d' % r['max_temp_in_program'], observed=r)
             continue
         if j['kind'] == 'merge':
             ck.case(('merge', json.dumps(j, sort_keys=True)), nontrivial=len(j['groups']) > 1)
@@ -155,6 +171,32 @@ def correspondence(ck, rng, tier):
                     how='vh c12-run on the input; Eval vm_compute in corr_merge / corr_names / corr_heap')
 
 
+def multi_entry_program(rng):
+    """Two entry modules that reach two mutually recursive enums of a shared module in opposite orders: the order in which
+    the entry points are lowered (a HashMap iteration) decides which enum is specialised first."""
+    extra_a = rng.pick(['', ', MidChain(int)', ', NilChain'])
+    extra_b = rng.pick(['', ', MidRope(int)', ', NilRope'])
+    def arms(kind, extra):
+        out = ''
+        if 'Mid' in extra:
+            out += ', Mid%s(n) -> n' % kind
+        if 'Nil' in extra:
+            out += ', Nil%s -> 100' % kind
+        return out
+    shared = ('class Chain(Link(Rope), EndChain%s) {\n  method len(): int = match this { Link(r) -> 1 + r.len(), EndChain -> 0%s }\n}\n'
+              'class Rope(Knot(Chain), EndRope%s) {\n  method len(): int = match this { Knot(c) -> 1 + c.len(), EndRope -> 0%s }\n}\n'
+              % (extra_a, arms('Chain', extra_a), extra_b, arms('Rope', extra_b)))
+    k = rng.range(1, 3)
+    va = 'Chain.EndChain()'
+    vb = 'Rope.EndRope()'
+    for i in range(k):
+        va, vb = 'Chain.Link(%s)' % vb, 'Rope.Knot(%s)' % va
+    head = 'import { Chain, Rope } from Shared;\n'
+    ea = head + 'class Main {\n  function main(): unit = {\n    Process.println(Str.fromInt(%s.len()));\n    Process.println(Str.fromInt(%s.len()));\n  }\n}\n' % (va, vb)
+    eb = head + 'class Main {\n  function main(): unit = {\n    Process.println(Str.fromInt(%s.len()));\n    Process.println(Str.fromInt(%s.len()));\n  }\n}\n' % (vb, va)
+    return {'sources': {'Shared': shared, 'EntryA': ea, 'EntryB': eb}, 'entry': 'EntryA', 'entries': ['EntryA', 'EntryB'], 'features': ['multi-entry']}
+
+
 def run(tier, seed, replay=None):
     ck = Check(PID, tier, seed, level='proof')
     ck.checker_cmd = 'make -C /verif/coq theories/C12/Props.vo (coqc 8.16.1) + Print Assumptions per theorem'
@@ -171,9 +213,19 @@ def run(tier, seed, replay=None):
     rng = Rng(seed ^ 0xC12)
     if not replay:
         correspondence(ck, rng.fork(), tier)
+    else:
+        # the freshness invariant on the replayed program
+        rp = json.load(open(replay))
+        rc, out = vh(['c12-run'], input=json.dumps({'kind': 'opt-fresh', 'sources': rp['input']['sources']}) + '\n', timeout=300)
+        rr = [json.loads(l) for l in out.splitlines() if l.startswith('{')]
+        if rr and 'next_heap_temp' in rr[0] and int(rr[0]['next_heap_temp'][2:]) <= rr[0]['max_temp_in_program']:
+            ck.property_failure('after optimize_sources the next temporary name of the heap (%s) is not fresh (program uses _t%d)'
+                                % (rr[0]['next_heap_temp'], rr[0]['max_temp_in_program']), rp['input'], observed=rr[0])
     if replay:
         rp = json.load(open(replay))
         progs = [{'sources': rp['input']['sources'], 'entry': rp['input']['entry'], 'features': ['replay']}]
+        if rp['input'].get('entries'):
+            progs[0]['entries'] = rp['input']['entries']
     else:
         n = 24 if tier == 'quick' else 300
         progs = []
@@ -182,7 +234,9 @@ def run(tier, seed, replay=None):
             progs.append(json.load(open(os.path.join(cdir, fn))))
         for i in range(n):
             r = rng.fork()
-            if i % 3 == 0:
+            if i % 6 == 5:
+                progs.append(multi_entry_program(r))
+            elif i % 3 == 0:
                 progs.append(ill_typed_sources(r))
             elif i % 3 == 1:
                 progs.append(gen_layout_program(r))
@@ -198,7 +252,7 @@ def run(tier, seed, replay=None):
     tasks = []
     orders = {}
     for pi, p in enumerate(progs):
-        job = {'id': pi, 'sources': p['sources'], 'entries': [p['entry']], 'compile': True}
+        job = {'id': pi, 'sources': p['sources'], 'entries': p.get('entries', [p['entry']]), 'compile': True}
         names = sorted(p['sources'])
         for t in threads:
             for k in range(reps):
@@ -243,18 +297,20 @@ def run(tier, seed, replay=None):
         if ref['compile'] != 'ok':
             continue
         # behaviour of the emitted programs: run each distinct emitted TypeScript text
-        texts = {}
-        for key in sorted(variants):
-            path = os.path.join(base, 'p%d_t%d_%d' % key, p['entry'] + '.ts')
-            if os.path.exists(path):
-                h = hashlib.sha1(open(path, 'rb').read()).hexdigest()
-                texts.setdefault(h, path)
-        ck.count('distinct_emitted_texts', len(texts))
-        outs = {h: _ts_run(path, 10000) for h, path in texts.items()}
-        vals = list(outs.values())
-        for o in vals[1:]:
-            if o['lines'] != vals[0]['lines'] or o['ending'] != vals[0]['ending']:
-                ck.property_failure('emitted programs of two runs behave differently', inp, expected=vals[0], observed=o)
+        for entry in p.get('entries', [p['entry']]):
+            texts = {}
+            for key in sorted(variants):
+                path = os.path.join(base, 'p%d_t%d_%d' % key, entry + '.ts')
+                if os.path.exists(path):
+                    h = hashlib.sha1(open(path, 'rb').read()).hexdigest()
+                    texts.setdefault(h, path)
+            ck.count('distinct_emitted_texts', len(texts))
+            outs = {h: _ts_run(path, 10000) for h, path in texts.items()}
+            vals = list(outs.values())
+            bad_run = next((o for o in vals[1:] if o['lines'] != vals[0]['lines'] or o['ending'] != vals[0]['ending']), None)
+            if bad_run is not None:
+                ck.property_failure('emitted programs (entry %s) of two runs behave differently' % entry, dict(inp, entries=p.get('entries')),
+                                    expected=vals[0], observed=bad_run)
                 break
     if progs:
         ck.sample({'sources': {k: v[:400] for k, v in list(progs[0]['sources'].items())[:2]}, 'threads': threads, 'fresh_processes_per_thread_count': reps})
